@@ -105,6 +105,7 @@ void setSendHook(void (*fn)(int, size_t)) { sendHook = fn; }
 void setFailHook(void (*fn)(int, bool, int)) { failHook = fn; }
 void setDnsDelayMs(int ms) { dnsDelayMs = ms; }
 int openFdCount() { return (int)rootTable.m.size(); }
+int fileIdWatermark() { return nextFileId; }
 
 static void callFailHook(int fd, bool isSend, int err) { NoPreempt np; failHook(fd, isSend, err); }
 static void completeConnect(void* a) { File* f = (File*)a; if (f->refs > 0 && f->connecting) { f->connecting = false; if (!f->refused) f->connected = true; else f->soError = ECONNREFUSED; } }
